@@ -34,8 +34,8 @@ IGM01 = {
             "IDF012": "GNSS IOD",
             "IDF013": "Delta Orbit Radial",
             "IDF014": "Delta Orbit Along-Track",
-            "IDF016": "Delta Orbit Cross-Track",
-            "IDF015": "Dot Orbit Delta Radial",
+            "IDF015": "Delta Orbit Cross-Track",
+            "IDF016": "Dot Orbit Delta Radial",
             "IDF017": "Dot Orbit Delta Along-Track",
             "IDF018": "Dot Orbit Delta Cross-Track",
         },
